@@ -129,6 +129,12 @@ def validate_trace(trace_module, cfg, trace_file, tag, env_extra=None, timeout=6
     accepted = res["ok"] and "TRACE-ACCEPTED" in text
     m = re.search(r"TRACE-REJECTED[^\n]*", text)
     res["reject"] = m.group(0) if m else (None if accepted else (res["error"] or "not accepted"))
+    # a run that neither accepted nor rejected the trace (TLC crashed, ran out of memory, timed out) is a
+    # failure of the tooling, never a statement about the code
+    decided = accepted or ("TRACE-REJECTED" in text) or ("CONTRACT-VIOLATED" in text) or ("ALLOC-BOUND-VIOLATED" in text) or ("is violated" in text and "Invariant" in text)
+    if not decided:
+        tail = subprocess.run(["sh", "-c", "grep -v '^<<' '%s' | tail -25" % res["out"]], stdout=subprocess.PIPE, text=True).stdout
+        raise ToolError("trace validation %s/%s neither accepted nor rejected the trace: %s\n%s" % (trace_module, cfg, res["error"], tail))
     return accepted, res
 
 # ----------------------------------------------------------------------------- harness
